@@ -28,6 +28,41 @@ def _derives_from_outs(f, cfg: CFG, e: ast.AST, at: int, depth: int = 6) -> str 
         return None
     if isinstance(e, ast.Call) and call_attr(e) in ("reversed", "tuple", "list") and e.args:
         return _derives_from_outs(f, cfg, e.args[0], at, depth - 1)
+    # one element taken out of a collection of own definitions
+    if isinstance(e, ast.Call) and call_attr(e) == "pop" and isinstance(e.func, ast.Attribute):
+        return _derives_from_outs(f, cfg, e.func.value, at, depth - 1)
+    if isinstance(e, ast.Subscript) and not isinstance(e.slice, ast.Slice):
+        d0 = _derives_from_outs(f, cfg, e.value, at, depth - 1)
+        if d0 is not None:
+            return d0
+    # [g(v) for v in <own definitions>] where g returns v or its allocated twin
+    if isinstance(e, (ast.ListComp, ast.GeneratorExp)) and len(e.generators) == 1 and not e.generators[0].ifs and isinstance(e.generators[0].target, ast.Name):
+        g_ = e.generators[0]
+        src = _derives_from_outs(f, cfg, g_.iter, at, depth - 1)
+        if src is not None:
+            v_ = g_.target.id
+            elt = e.elt
+            if isinstance(elt, ast.Name) and elt.id == v_:
+                return src
+            if isinstance(elt, ast.IfExp):
+                twins = {n_.target.id for n_ in ast.walk(e) if isinstance(n_, ast.NamedExpr) and isinstance(n_.target, ast.Name) and isinstance(n_.value, ast.Call) and call_attr(n_.value) == "allocate_value" and any(isinstance(a_, ast.Name) and a_.id == v_ for a_ in n_.value.args)}
+                if all(isinstance(b_, ast.Name) and (b_.id == v_ or b_.id in twins) for b_ in (elt.body, elt.orelse)):
+                    return src
+            if isinstance(elt, ast.Call) and any(isinstance(a_, ast.Name) and a_.id == v_ for a_ in elt.args):
+                nm_ = call_attr(elt) or (elt.func.id if isinstance(elt.func, ast.Name) else "")
+                if nm_ == "allocate_value":
+                    return src
+                h_ = f.module.functions.get(nm_) if isinstance(elt.func, ast.Name) else None
+                if h_ is not None:
+                    params_ = {a_.arg for a_ in h_.raw_node.args.args}
+                    rets_ = [x for x in walk_local(h_.raw_node) if isinstance(x, ast.Return) and x.value is not None]
+                    ok_ = bool(rets_)
+                    for rt_ in rets_:
+                        for nn_ in ast.walk(rt_.value):
+                            if isinstance(nn_, ast.Name) and nn_.id not in params_ and not any(isinstance(s_, ast.Assign) and unparse(s_.targets[0]) == nn_.id and isinstance(s_.value, ast.Call) and call_attr(s_.value) == "allocate_value" for s_ in walk_local(h_.raw_node)):
+                                ok_ = False
+                    if ok_:
+                        return src
     if isinstance(e, ast.Name):
         descs = []
         for nid, val in reaching_defs(cfg, e.id, at):
@@ -359,13 +394,16 @@ def check_register_scan(idx: Index, rep: Report) -> None:
         if unparse(it) == f"{reg}.walk()":
             r.ok(f.fq, f"{f.loc} iterates {reg}.walk()")
             continue
-        if isinstance(it, ast.Call) and isinstance(it.func, ast.Name):
-            h = idx.try_func(RAB, it.func.id)
+        if isinstance(it, ast.Call) and isinstance(it.func, (ast.Name, ast.Attribute)):
+            hname = it.func.id if isinstance(it.func, ast.Name) else it.func.attr
+            h = idx.try_func(RAB, hname)
+            if h is None and f.cls is not None and f.cls.method(hname) is not None:
+                h = f.cls.method(hname)
             if h is not None:
-                pruned = [n for n in walk_local(h.raw_node) if isinstance(n, ast.If) and any(isinstance(y, (ast.YieldFrom, ast.For)) or (isinstance(y, ast.Call) and call_attr(y) in ("walk", it.func.id, "extend")) for b_ in n.body + n.orelse for y in ast.walk(b_)) and re.search(r"has_trait|isinstance|get_effects|regions", unparse(n.test))]
+                pruned = [n for n in walk_local(h.raw_node) if isinstance(n, ast.If) and any(isinstance(y, (ast.YieldFrom, ast.For)) or (isinstance(y, ast.Call) and call_attr(y) in ("walk", hname, "extend")) for b_ in n.body + n.orelse for y in ast.walk(b_)) and re.search(r"has_trait|isinstance|get_effects|regions", unparse(n.test))]
                 full = any(isinstance(n, ast.Call) and call_attr(n) == "walk" for n in ast.walk(h.raw_node)) and not pruned
                 if pruned:
-                    r.fail(f.fq, Finding("C19.R8", f.fq, f"pruned-scan:{it.func.id}", f"`{unparse(it)}` descends into nested regions only under `{unparse(pruned[0].test)}`: registers pre-assigned or excluded only inside the operations that are skipped are not removed from the pool before allocation and are handed to other live values", f"{RAB}:{pruned[0].lineno}"))
+                    r.fail(f.fq, Finding("C19.R8", f.fq, f"pruned-scan:{hname}", f"`{unparse(it)}` descends into nested regions only under `{unparse(pruned[0].test)}`: registers pre-assigned or excluded only inside the operations that are skipped are not removed from the pool before allocation and are handed to other live values", f"{RAB}:{pruned[0].lineno}"))
                     continue
                 if full:
                     r.ok(f.fq, f"{f.loc} iterates {unparse(it)} (a full walk)")
